@@ -72,6 +72,44 @@ func runC09(r *Run, p *Prog) {
 			}
 		}
 	}
+	// O3c: code of the package reachable from the entry points that is not a cursor reader (post-parse passes, helpers)
+	// must terminate evidently: no recursion, loops counted / over a slice. The cursor argument bounds only the readers.
+	r.Guard("O3c", func() {
+		isReader := map[*ssa.Function]bool{a.next: true, a.back: true}
+		for _, f := range a.methods {
+			isReader[f] = true
+		}
+		cg := BuildCallGraph(p)
+		var roots []*ssa.Function
+		for _, f := range p.FuncsOf(pkgIDL) {
+			if f.Parent() == nil && f.Object() != nil && f.Object().Exported() {
+				roots = append(roots, f)
+			}
+		}
+		n := 0
+		for f := range cg.Reach(roots, true) {
+			if fnPkgPath(f) != pkgIDL || isReader[f] {
+				continue
+			}
+			n++
+			// recursion: f reaches itself
+			rec := false
+			for _, g := range cg.Callees[f] {
+				if g == f || cg.Reach([]*ssa.Function{g}, true)[f] {
+					rec = true
+				}
+			}
+			r.Ob("O3", shortName(f), "non-reader code is not recursive", f.Pos(), !rec,
+				"a function outside the cursor readers is (mutually) recursive: the progress argument (every cycle consumes input) does not bound it, so neither termination nor its cost on adversarial input is established")
+			for _, b := range f.Blocks {
+				if isLoopHeader(b) {
+					ok := countedLoop(b) || rangeLoop(b)
+					r.Ob("O3", shortName(f), fmt.Sprintf("non-reader loop #%d is a counted/range loop", a.loopNo(b)), p.InstrPos(b.Instrs[0]), ok, "a loop outside the cursor readers whose termination is not evident")
+				}
+			}
+		}
+		r.Stat("non_reader_functions", n)
+	})
 	r.Floor("O1", 5)
 	r.Floor("O2", 10)
 	r.Floor("O3", 5)
@@ -126,6 +164,9 @@ func runC09(r *Run, p *Prog) {
 					if mu, ok := in.(*ssa.MapUpdate); ok {
 						n++
 						_, made := mu.Map.(*ssa.MakeMap)
+						if !made {
+							made = mapMemberAlwaysMade(p, mu.Map)
+						}
 						r.Ob("O4", shortName(f), "map update on a map created with make", mu.Pos(), made, "write to a map that is not known to be non-nil")
 					}
 				}
@@ -218,4 +259,54 @@ func bceCrossCheck(r *Run, p *Prog, res *CursorResult) {
 	r.Stat("compiler_bounds_checks", len(lines))
 	r.Ob("O1", "-", "every bounds check the compiler could not eliminate is covered by a census obligation", res.A.cursorT.Obj().Pos(), len(miss) == 0 && len(lines) > 0,
 		fmt.Sprintf("bounds checks reported by the compiler (-d=ssa/check_bce) on idl.go lines %v have no obligation in the census (compiler reported %d in total)", miss, len(lines)))
+}
+
+// rangeLoop: the header is driven by a range iterator (map/string range: `next` instruction) or a rangeindex phi.
+func rangeLoop(h *ssa.BasicBlock) bool {
+	for _, in := range h.Instrs {
+		if _, ok := in.(*ssa.Next); ok {
+			return true
+		}
+	}
+	return strings.HasPrefix(h.Comment, "rangeindex") || strings.HasPrefix(h.Comment, "rangeiter")
+}
+
+// mapMemberAlwaysMade: v is a load of a struct member all of whose stores in the package are freshly made maps.
+func mapMemberAlwaysMade(p *Prog, v ssa.Value) bool {
+	ld, ok := v.(*ssa.UnOp)
+	if !ok {
+		return false
+	}
+	fa, ok := ld.X.(*ssa.FieldAddr)
+	if !ok {
+		return false
+	}
+	pt, ok := fa.X.Type().Underlying().(*types.Pointer)
+	if !ok {
+		return false
+	}
+	n := 0
+	for _, f := range p.FuncsOf(fnPkgPath(ld.Parent())) {
+		for _, b := range f.Blocks {
+			for _, in := range b.Instrs {
+				st, ok := in.(*ssa.Store)
+				if !ok {
+					continue
+				}
+				fa2, ok := st.Addr.(*ssa.FieldAddr)
+				if !ok || fa2.Field != fa.Field {
+					continue
+				}
+				pt2, ok := fa2.X.Type().Underlying().(*types.Pointer)
+				if !ok || !types.Identical(pt2.Elem(), pt.Elem()) {
+					continue
+				}
+				n++
+				if _, isMake := st.Val.(*ssa.MakeMap); !isMake {
+					return false
+				}
+			}
+		}
+	}
+	return n > 0
 }
